@@ -32,7 +32,11 @@ fn restored_ok(p: &RtpPacket, u: &RtpPacket, ssrc: u32, ppt: u8) -> bool {
 }
 
 /// `rtx_sdp <rtx pt> <fmtp parameters, hex> <fid "p:r" | -> <a=ssrc values ;-list | -> <packet>`
-pub fn s_rtx_sdp(_run: &mut Run, a: &[&str]) -> (String, Fails) {
+/// which `set_remote_description` path builds the receiver
+#[derive(Clone, Copy, PartialEq)]
+pub enum SdpPath { NewFromOffer, ExistingFromOffer, AnswerToOurOffer }
+
+pub fn s_rtx_sdp(_run: &mut Run, a: &[&str], path: SdpPath) -> (String, Fails) {
     let rtx_pt: u8 = a[0].parse().unwrap();
     let fmtp = String::from_utf8(unhex(a[1])).expect("utf-8");
     let fid: Option<(u32, u32)> = if a[2] == "-" { None } else { let (p, r) = a[2].split_once(':').unwrap(); Some((p.parse().unwrap(), r.parse().unwrap())) };
@@ -46,7 +50,18 @@ a=fingerprint:sha-256 AA:BB:CC:DD:EE:FF:00:11:22:33:44:55:66:77:88:99:AA:BB:CC:D
     let mut f: Fails = vec![];
     let r = with_rt(|rt| rt.block_on(async {
         let pc = rustrtc::PeerConnection::new(rustrtc::RtcConfiguration::default());
-        let d = match rustrtc::SessionDescription::parse(rustrtc::SdpType::Offer, &sdp) { Ok(d) => d, Err(e) => return Err(format!("sdp-parse:{e:?}")) };
+        let ty = match path {
+            SdpPath::NewFromOffer => rustrtc::SdpType::Offer,
+            // a transceiver the application created before the offer arrives (also the shape of every re-offer)
+            SdpPath::ExistingFromOffer => { pc.add_transceiver(rustrtc::MediaKind::Video, rustrtc::TransceiverDirection::SendRecv); rustrtc::SdpType::Offer }
+            // this stack is the offerer: the peer's RTX association arrives in the ANSWER
+            SdpPath::AnswerToOurOffer => {
+                pc.add_transceiver(rustrtc::MediaKind::Video, rustrtc::TransceiverDirection::SendRecv);
+                let o = match pc.create_offer().await { Ok(o) => o, Err(e) => return Err(format!("create-offer:{e:?}")) };
+                if let Err(e) = pc.set_local_description(o) { return Err(format!("set-local:{e:?}")); }
+                rustrtc::SdpType::Answer }
+        };
+        let d = match rustrtc::SessionDescription::parse(ty, &sdp) { Ok(d) => d, Err(e) => return Err(format!("sdp-parse:{e:?}")) };
         if let Err(e) = pc.set_remote_description(d).await { return Err(format!("set-remote:{e:?}")); }
         let rx = match pc.get_transceivers().first().and_then(|t| t.receiver()) { Some(r) => r, None => return Err("no-receiver".into()) };
         let out = (rx.verif_maybe_unwrap_rtx(p.clone()), rx.ssrc(), rx.rtx_ssrc());
@@ -57,17 +72,21 @@ a=fingerprint:sha-256 AA:BB:CC:DD:EE:FF:00:11:22:33:44:55:66:77:88:99:AA:BB:CC:D
     // what the SDP says (RFC 5576 §4.2 FID: primary first, then the repair flow; RFC 4588 §8.6 apt)
     let want_ssrc = match fid { Some((pr, _)) => if ssrcs.contains(&pr) { pr } else { 0 }, None => ssrcs.first().copied().unwrap_or(0) };
     if ssrc != want_ssrc { f.push(("codec:rtx:sdp-primary-ssrc".into(), format!("{ssrc} vs {want_ssrc}"))); }
-    if rtx_ssrc != fid.map(|x| x.1) { f.push(("codec:rtx:sdp-rtx-ssrc".into(), format!("{rtx_ssrc:?}"))); }
+    // (an existing transceiver takes the RTX association only together with a declared primary SSRC: an FID group whose
+    //  sources have no `a=ssrc` line gets no verdict there)
+    let undeclared = path == SdpPath::ExistingFromOffer && want_ssrc == 0;
+    if rtx_ssrc != fid.map(|x| x.1) && !undeclared { f.push(("codec:rtx:sdp-rtx-ssrc".into(), format!("{rtx_ssrc:?}"))); }
     if let Some(assoc) = super::spec_apt_pub(&fmtp) {
         // the fmtp line associates (or not) the RTX payload type with a primary one — decided by the RFC reading
         let mapped = if p.header.payload_type == rtx_pt { assoc } else { None };
+        if undeclared && mapped.is_some() { return (match r { None => "none".into(), Some(u) => format!("some {}", show_pkt(&u)) }, f); }
         match mapped {
             Some(ppt) => {
                 if want_ssrc != 0 && p.payload.len() >= 2 { match &r { None => f.push(("codec:rtx:sdp-retransmission-dropped".into(), format!("apt={ppt} negotiated, fid {fid:?}"))),
                     Some(u) => if !restored_ok(&p, u, want_ssrc, ppt) { f.push(("codec:rtx:sdp-restore".into(), show_pkt(u))); } } }
                 else if r.is_some() { f.push(("codec:rtx:sdp-unrestorable-not-dropped".into(), String::new())); }
             }
-            None => { if fid.map(|x| x.1) != Some(p.header.ssrc) { if r.as_ref() != Some(&p) { f.push(("codec:rtx:sdp-primary-not-passed".into(), String::new())); } }
+            None => { if undeclared { /* no verdict */ } else if fid.map(|x| x.1) != Some(p.header.ssrc) { if r.as_ref() != Some(&p) { f.push(("codec:rtx:sdp-primary-not-passed".into(), String::new())); } }
                       else if r.is_some() { f.push(("codec:rtx:sdp-unmapped-on-rtx-ssrc-not-dropped".into(), String::new())); } }
         }
     }
@@ -148,4 +167,40 @@ pub fn s_rtx_loop(_run: &mut Run, a: &[&str]) -> (String, Fails) {
     if latched != cur { f.push(("codec:rtx:loop-latch".into(), format!("{latched} vs {cur}"))); }
     let out = outs.iter().map(|o| match o { None => "none".to_string(), Some(u) => show_pkt(u) }).collect::<Vec<_>>().join(" ");
     (format!("{out} #{latched}"), f)
+}
+
+/// `rtx_sender <primary pt> <rtx pt>`: the SENDER side of the negotiation — `add_track` + `create_offer` with a video capability
+/// that enables RTX; what `build_description` hands to `RtpSender::set_rtx` must be the RTX association the local SDP announces
+pub fn s_rtx_sender(_run: &mut Run, a: &[&str]) -> (String, Fails) {
+    let (ppt, rtx_pt): (u8, u8) = (a[0].parse().unwrap(), a[1].parse().unwrap());
+    let mut f: Fails = vec![];
+    let r = with_rt(|rt| rt.block_on(async {
+        let mut cfg = rustrtc::RtcConfiguration::default();
+        let mut v = rustrtc::config::VideoCapability::vp8_with_rtx(rtx_pt); v.payload_type = ppt;
+        cfg.media_capabilities = Some(rustrtc::config::MediaCapabilities { audio: vec![], video: vec![v], application: None, image: vec![] });
+        let pc = rustrtc::PeerConnection::new(cfg);
+        let (_src, track, _) = rustrtc::media::track::sample_track(rustrtc::media::frame::MediaKind::Video, 8);
+        let params = rustrtc::peer_connection::RtpCodecParameters { payload_type: ppt, name: "VP8".into(), clock_rate: 90000, channels: 0 };
+        let sender = match pc.add_track(track, params) { Ok(s) => s, Err(e) => return Err(format!("add-track:{e:?}")) };
+        let offer = match pc.create_offer().await { Ok(o) => o, Err(e) => return Err(format!("create-offer:{e:?}")) };
+        let cfg = sender.interceptors().iter().find_map(|i| i.clone().as_sender_nack_handler()).and_then(|h| h.rtx_config());
+        let sdp = offer.to_sdp_string();
+        pc.close();
+        Ok((cfg, sdp))
+    }));
+    let (cfg, sdp) = match r { Ok(x) => x, Err(e) => { f.push(("codec:rtx:sender-setup".into(), e.clone())); return (format!("setup-error {e}"), f); } };
+    // read the local description like a peer would (RFC 4588 §8.6, RFC 5576 §4.2)
+    let mut assoc: Option<u8> = None; let mut fid: Option<(u32, u32)> = None;
+    for l in sdp.lines() {
+        if let Some(v) = l.strip_prefix("a=fmtp:") { if let Some((pt, rest)) = v.split_once(' ') { if let (Ok(pt), Some(Some(p))) = (pt.parse::<u8>(), super::spec_apt_pub(rest)) { if p == ppt { assoc = Some(pt); } } } }
+        if let Some(v) = l.strip_prefix("a=ssrc-group:FID ") { let w: Vec<&str> = v.split_whitespace().collect(); if w.len() == 2 { if let (Ok(p), Ok(r)) = (w[0].parse(), w[1].parse()) { fid = Some((p, r)); } } }
+    }
+    match (assoc, cfg) {
+        (Some(pt), Some(c)) => { if c.rtx_payload_type != pt { f.push(("codec:rtx:sender-rtx-pt".into(), format!("retransmissions would carry PT {}, the offer says a=fmtp:{pt} apt={ppt}", c.rtx_payload_type))); }
+            if fid.map(|x| x.1) != Some(c.rtx_ssrc) { f.push(("codec:rtx:sender-rtx-ssrc".into(), format!("{:?} vs FID {:?}", c.rtx_ssrc, fid))); } }
+        (Some(pt), None) => f.push(("codec:rtx:sender-rtx-not-configured".into(), format!("offer announces a=fmtp:{pt} apt={ppt}"))),
+        (None, Some(c)) => f.push(("codec:rtx:sender-rtx-unannounced".into(), format!("{c:?}"))),
+        (None, None) => {}
+    }
+    (match cfg { None => "none".into(), Some(c) => format!("some:{}", c.rtx_payload_type) }, f)
 }
